@@ -19,7 +19,7 @@ def pregen():
 PREGEN_NOTES = pregen()   # at import: before the framework builds the Coq files
 THEOREMS = ['C01_run_invariant', 'C01_run_caller', 'C01_rgpu_run', 'C01_rgpu_caller', 'C01_attempt', 'C01_rbu_step',
             'C01_nothing_to_do', 'C01_nothing_to_do_latt', 'C01_rgpu_nothing_to_do',
-            'C01_source_table', 'C01_engine_is_table', 'C01_rgpu_is_table', 'C01_rbu_full', 'C01_rbu_start_degrees', 'C01_rbu_zero_identity',
+            'C01_source_table', 'C01_engine_is_table', 'C01_rgpu_is_table', 'C01_rbu_source_table', 'C01_rbu_is_table', 'C01_rbu_full', 'C01_rbu_start_degrees', 'C01_rbu_zero_identity',
             'C01_und_selfloop_refuted']
 RULE = ('8 engine routines + randomize_graph_partial_und + randomizer_bin_und on generated graphs n=4..9 and (one in eight) '
         'n=10..20 (ER at several densities, ring+chords, tree+chords, bridges, isolated nodes, exactly two disjoint edges, long ring, '
